@@ -8,8 +8,8 @@
    the last [buckets] intervals up to [now]; [w_decisions w] is the log of accept()
    decisions.  All theorems hold for every history, of any length. *)
 From Coq Require Import List ZArith QArith Bool Lia.
-From GZ Require Import Lib.RollingWindow Lib.RollingWindowSpec C01.Model C01.Spec C01.Proofs C01.ProofsConc.
-From GZ Require Import C01.WrapModel C01.WrapProofs.
+From GZ Require Import Lib.RollingWindow Lib.RollingWindowSpec C01.Model C01.Spec C01.Proofs C01.ProofsConc C01.ProofsConc2.
+From GZ Require Import C01.WrapModel C01.WrapProofs C01.Multi C01.MultiProofs.
 Import ListNotations.
 Open Scope Z_scope.
 
@@ -115,6 +115,22 @@ Theorem exact_accounting_history : forall cfg base cs now,
 Proof. exact accounting_run. Qed.
 Print Assumptions exact_accounting_history.
 
+(* T2 over whole histories, run counts (the fallback count included): along ANY history the
+   request runs exactly for the admitted Do* calls (once), the fallback exactly for the
+   rejected calls that have one (once) - never for an admitted call, whatever value its
+   request returned - an admitted call hands back what its request returned, a rejected one
+   ErrServiceUnavailable / the fallback's value *)
+Theorem exact_runs_history : forall cfg cs w,
+  Forall2 (fun c o =>
+             o_req o = (if was_admitted o && negb (is_allow (k_entry c)) then 1 else 0) /\
+             o_fb o = (if was_rejected o && has_fallback (k_entry c) then 1 else 0) /\
+             (was_admitted o = true -> o_res o = result_of (k_entry c) (k_out c)) /\
+             (was_rejected o = true ->
+              o_res o = (if has_fallback (k_entry c) then RFallback else RUnavailable)))
+          cs (snd (run cfg w cs)).
+Proof. exact run_exact_runs. Qed.
+Print Assumptions exact_runs_history.
+
 (* T3  After any history containing a throttled admission, a call arriving more than
    forcePassDuration after the latest one is let through whatever the draw: the request runs
    once and its result comes back. *)
@@ -200,6 +216,103 @@ Theorem interleaved_exact_accounting : forall cfg base calls sched tid,
      sum_fail (swin (i_st w)) now = n_fail vals /\ sum_drop (swin (i_st w)) now = n_drop vals).
 Proof. exact interleaved_accounting. Qed.
 Print Assumptions interleaved_exact_accounting.
+
+(* T3 / T4 under EVERY interleaving.  [decisions_of log] are the decisions (time, verdict) of
+   an interleaved log, in order. *)
+
+(* lastPass always is the time of the latest throttled admission decided so far *)
+Theorem interleaved_lastpass_is_last_throttled : forall cfg base calls sched,
+  sched_ok sched ->
+  slast (i_st (ireach cfg base calls sched)) =
+  last_throttled (decisions_of (i_log (ireach cfg base calls sched))).
+Proof. exact interleaved_lastpass. Qed.
+Print Assumptions interleaved_lastpass_is_last_throttled.
+
+(* T3: whatever ran concurrently, a decision taken more than forcePassDuration after the latest
+   throttled admission decided before it lets the call through, for every draw (the draws are
+   those of [calls], universally quantified); by interleaved_exact_accounting the call then
+   runs its request once and returns its result *)
+Theorem interleaved_probe_guaranteed : forall cfg base calls sched pre tid t r v post,
+  0 < base -> sched_ok sched ->
+  i_log (ireach cfg base calls sched) = pre ++ EvDecide tid t r v :: post ->
+  some_throttled (decisions_of pre) ->
+  c_force cfg < t - last_throttled (decisions_of pre) ->
+  v = VAdmit \/ v = VForcePass.
+Proof. exact interleaved_probe. Qed.
+Print Assumptions interleaved_probe_guaranteed.
+
+(* T4: a decision taken on a read (by interleaved_reads_see_recorded_window: the counts of the
+   calls recorded before that read) without any success among >= T recorded calls, with no
+   force-pass due, rejects for every draw below (T - protection)/(T + 1) *)
+Theorem interleaved_total_failure_rejects : forall cfg base calls sched pre tid t r v post T,
+  cfg_ok cfg -> sched_ok sched ->
+  i_log (ireach cfg base calls sched) = pre ++ EvDecide tid t r v :: post ->
+  w_accepts r = 0 -> 0 <= T -> T <= w_total r ->
+  (last_throttled (decisions_of pre) = 0 \/ t - last_throttled (decisions_of pre) <= c_force cfg) ->
+  let u := k_u (nth tid calls dummy_call) in
+  (0 <= u)%Q -> (u < inject_Z (T - c_protection cfg) / inject_Z (T + 1))%Q ->
+  v = VReject.
+Proof. exact interleaved_total_failure. Qed.
+Print Assumptions interleaved_total_failure_rejects.
+
+(* M  Several breakers at once (C01/Multi.v): plain instances, NAMES of the package-level
+   registry (breaker.Do*(name, ..) / GetBreaker: the breaker comes into being at the first use
+   of the name; NoBreakerFor turns the name into a nopBreaker) and call TREES: the request of
+   a call goes through another breaker and hands back what that one returned (wrapped or not).
+   [mrun cfg (minit cfg base named) ops] reports one row per node; a row
+   [MRun lc o wpre wpost] says: the node's breaker was in world [wpre], the node was the call
+   [lc] of that breaker and produced observation [o] and world [wpost]. *)
+
+(* every step of every live breaker of the system, in every history, is ONE step of the
+   sequential model after a history of that breaker alone: T1-T4 and the accounting theorems
+   above hold of each breaker whatever happens on the others and however calls are nested *)
+Theorem multi_every_step_is_sequential : forall cfg base named ops,
+  Forall op_ok ops ->
+  Forall (fun r => match r with
+                   | MRun lc o wpre wpost =>
+                     (exists b cs, times_ok (cs ++ [lc]) /\ wpre = reach cfg b cs) /\
+                     step cfg wpre lc = (wpost, o)
+                   | MNopRun o => o_fb o = 0 /\ o_verdict o = None /\ (o_req o = 0 \/ o_req o = 1)
+                   | _ => True
+                   end)
+         (snd (mrun cfg (minit cfg base named) ops)).
+Proof. exact multi_rows_sequential. Qed.
+Print Assumptions multi_every_step_is_sequential.
+
+Theorem multi_reject_only_if_over_limit : forall cfg base named ops lc o wpre wpost,
+  cfg_ok cfg -> Forall op_ok ops ->
+  In (MRun lc o wpre wpost) (snd (mrun cfg (minit cfg base named) ops)) ->
+  (o_res o = RUnavailable \/ o_res o = RFallback) /\ o_req o = 0 ->
+  exists b, let vals := window_vals cfg b (w_marks wpre) (w_clock wpre + k_gap lc) in
+            over cfg (n_total vals) (n_success vals).
+Proof. exact multi_reject_only_if_over. Qed.
+Print Assumptions multi_reject_only_if_over_limit.
+
+(* the fallback of a call anywhere in a tree runs only if THAT call was rejected by ITS
+   breaker; an admitted call returns what its request returned - e.g. the
+   ErrServiceUnavailable of an inner breaker that is open - and does not run the fallback *)
+Theorem multi_exact_runs_per_node : forall cfg base named ops lc o wpre wpost,
+  Forall op_ok ops ->
+  In (MRun lc o wpre wpost) (snd (mrun cfg (minit cfg base named) ops)) ->
+  o_req o = (if was_admitted o && negb (is_allow (k_entry lc)) then 1 else 0) /\
+  o_fb o = (if was_rejected o && has_fallback (k_entry lc) then 1 else 0) /\
+  (was_admitted o = true -> o_res o = result_of (k_entry lc) (k_out lc)).
+Proof. exact multi_exact_runs. Qed.
+Print Assumptions multi_exact_runs_per_node.
+
+(* no state leaks: a call tree touches the breakers on its path only; a history leaves alone
+   every breaker / name none of its operations mentions *)
+Theorem multi_call_tree_frame : forall cfg n ms j,
+  ~ In j (ninsts n) ->
+  nth j (m_slots (fst (fst (nstep cfg ms n)))) SFresh = nth j (m_slots ms) SFresh.
+Proof. exact nstep_frame. Qed.
+Print Assumptions multi_call_tree_frame.
+
+Theorem multi_no_state_leak : forall cfg ops ms j,
+  (forall op, In op ops -> ~ In j (op_insts op)) ->
+  nth j (m_slots (fst (mrun cfg ms ops))) SFresh = nth j (m_slots ms) SFresh.
+Proof. exact multi_isolation. Qed.
+Print Assumptions multi_no_state_leak.
 
 (* W  The wrappers that put the breaker in front of a downstream call (C01/WrapModel.v):
    gRPC client / server (unary, stream) interceptors, the redis hook (command, pipeline, a
@@ -353,4 +466,34 @@ Proof.
   - unfold sched_ok. apply Forall_forall. intros a Ha. vm_compute in Ha.
     repeat (destruct Ha as [Ha|Ha]; [subst a; cbn; lia|]). destruct Ha.
   - vm_compute. repeat split; reflexivity.
+Qed.
+
+(* a registry: name 0 is driven open (it is created at its first use, 5 ms after the system
+   started), name 1 is not affected and admits; an outer call on name 1 whose request goes
+   through name 0 is admitted, runs its request once, gets the inner rejection back unchanged
+   and does not run its fallback; after NoBreakerFor(name 0) everything passes there *)
+Definition ex_multi_ops : list mop :=
+  repeat (MCall (NLeaf 0 (mkCall EDo CNone OErrU 5000000 0 0))) 12 ++
+  [MCall (NNest 1 (mkCall EDoFb CLive OOk 1000 0 0) false (NLeaf 0 (mkCall EDo CNone OOk 0 0 0)));
+   MNoBreaker 0 0;
+   MCall (NLeaf 0 (mkCall EDoFb CNone OErrSU 0 0 0))].
+Example ex_multi :
+  Forall op_ok ex_multi_ops /\
+  map (fun row => match row with
+                  | MRun _ o _ _ => Some (o_res o, o_req o, o_fb o, o_verdict o)
+                  | MNopRun o => Some (o_res o, o_req o, o_fb o, None)
+                  | _ => None end)
+      (skipn 12 (snd (mrun cfg_default (minit cfg_default ex_base [true; true]) ex_multi_ops)))
+  = [Some (RUnavailable, 1, 0, Some VAdmit); Some (RUnavailable, 0, 0, Some VReject);
+     Some (RUnavailable, 1, 0, None)] /\
+  match nth 1 (m_slots (fst (mrun cfg_default (minit cfg_default ex_base [true; true]) ex_multi_ops))) SFresh with
+  | SLive w => w_marks w = [(ex_base + 12 * 5000000 + 1000, v_fail)]
+  | _ => False
+  end.
+Proof.
+  split.
+  - apply Forall_forall. intros op Hop. vm_compute in Hop.
+    repeat (destruct Hop as [Hop|Hop]; [subst op; cbn; unfold ncall_ok, call_ok; cbn; repeat constructor; cbn; lia|]).
+    destruct Hop.
+  - vm_compute. split; reflexivity.
 Qed.
